@@ -61,9 +61,9 @@ def subRaw (a b : Asset) : Asset := merge (· - ·) 0 a b
 /-- `Asset.__sub__` -/
 def sub (a b : Asset) : Asset := normalize (subRaw a b)
 
-/-- `Asset.__eq__` -/
-def eq (a b : Asset) : Bool :=
-  a.length == b.length && a.all (fun p => has b p.1 && p.2 == getD b p.1 0)
+/-- `Asset.__eq__`: `all(self.get(n, 0) == other.get(n, 0) for n in set(self) | set(other))` (component-wise, like
+`__le__`; the enumeration of the union of the key sets is irrelevant: `Asset.eq_enumeration`, Proofs/Value.lean) -/
+def eq (a b : Asset) : Bool := (keys a ++ keys b).all (fun n => getD a n 0 == getD b n 0)
 
 /-- `Asset.__le__`: `for n in set(self) | set(other): if self.get(n, 0) > other.get(n, 0): return False` /
 `return True`.  The union of the two key sets is enumerated as `keys a ++ keys b`; a Python set is iterated in
@@ -91,9 +91,8 @@ def subRaw (a b : MultiAsset) : MultiAsset := merge Asset.sub [] a b
 /-- `MultiAsset.__sub__` -/
 def sub (a b : MultiAsset) : MultiAsset := normalize (subRaw a b)
 
-/-- `MultiAsset.__eq__` -/
-def eq (a b : MultiAsset) : Bool :=
-  a.length == b.length && a.all (fun p => has b p.1 && Asset.eq p.2 (getD b p.1 []))
+/-- `MultiAsset.__eq__`: `all(self.get(p, Asset()) == other.get(p, Asset()) for p in set(self) | set(other))` -/
+def eq (a b : MultiAsset) : Bool := (keys a ++ keys b).all (fun p => Asset.eq (getD a p []) (getD b p []))
 
 /-- `MultiAsset.__le__`: `for p in set(self) | set(other): if not self.get(p, Asset()) <= other.get(p, Asset()):
 return False` / `return True` (enumeration of the union: see `Asset.le`, `MultiAsset.le_enumeration`) -/
